@@ -99,11 +99,13 @@ class SpecEnv:
         self.exc = exc
         self.ghost = ghost or {}
         self.fx = fx
+        self.params = set()   # parameter names of the contract being evaluated (they win over the keywords result/exc)
         self.heap = cur       # the heap expressions are currently evaluated in
 
     def with_heap(self, h):
         e = SpecEnv(self.eng, self.names, self.cur, self.old, self.pre, self.result, self.exc, self.ghost, self.fx)
         e.heap = h
+        e.params = self.params
         return e
 
     def bind(self, extra):
@@ -111,6 +113,7 @@ class SpecEnv:
         n.update(extra)
         e = SpecEnv(self.eng, n, self.cur, self.old, self.pre, self.result, self.exc, self.ghost, self.fx)
         e.heap = self.heap
+        e.params = self.params
         return e
 
     # -------------------------------------------------------------
@@ -143,6 +146,13 @@ class SpecEnv:
 
     def ev_Name(self, e):
         n = e.id
+        is_param = n in self.params
+        if n == "retval" and self.result is not None:
+            return self.result
+        if n == "result" and self.result is not None and not is_param:
+            return self.result          # the spec keyword wins over a local variable (not a parameter) of the same name
+        if n == "exc" and self.exc is not None and not is_param:
+            return self.exc
         if n in self.names:
             return self.names[n]
         if n == "result":
@@ -305,6 +315,28 @@ class SpecEnv:
             # number of calls of the named contract on this path (syntactic path ghost; callee-side only)
             n = self._str(a[0])
             return z3.IntVal(int(self.ghost.get("$calls:" + n, 0)))
+        if f in ("call_arg", "call_star", "call_dstar", "call_nargs", "call_kw"):
+            ca = self.ghost.get("$callargs")
+            if ca is None:
+                raise SpecError("%s() outside a call-site clause" % f)
+            pos, star, dstar, kws = ca
+            if f == "call_nargs":
+                return z3.IntVal(len(pos))
+            if f == "call_arg":
+                i = a[0].value
+                if i >= len(pos):
+                    return smt.const("missing-argument-%d" % i)
+                return pos[i]
+            if f == "call_kw":
+                d = dict(kws)
+                return d.get(self._str(a[0]), smt.const("missing-keyword"))
+            v = star if f == "call_star" else dstar
+            return v if v is not None else smt.const("no-star-argument")
+        if f == "last_result":
+            r = self.ghost.get("$res:" + self._str(a[0]))
+            if r is None:
+                return smt.const("no-such-call")
+            return r
         if f == "call_before":
             # on this path every call of contract a precedes every call of contract b (syntactic path ghost)
             seq = list(self.ghost.get("$callseq", ()))
